@@ -14,6 +14,7 @@
    Only statements here; proofs are `exact <lemma>`. *)
 From Coq Require Import List Arith Bool ZArith NArith.
 From RxVerif Require Import Framing.Line Container.Parquet Container.JsonLines Container.JsonLinesProofs.
+From RxVerif Require Import Container.Json Container.JsonProofs Container.JsonC19.
 Import ListNotations.
 
 Theorem C19_load_any_rechunking_of_dump_partial :
@@ -176,6 +177,84 @@ Theorem C19_no_compression_whole_ok : forall (Byte : Type) (bs r : list (list By
   exists bs', (fun x => Some x) r = Some bs' /\ drop_empty bs' = drop_empty [concat bs].
 Proof. exact no_compression_whole_ok. Qed.
 Print Assumptions C19_no_compression_whole_ok.
+
+(* ---------------------------------------------------------------------------------------------
+   orjson MODELLED on the float-free subset of JSON (null, booleans, ints of orjson's range, strings of valid
+   code points, arrays, objects with unique string keys): Container/Json.v = json_text / json_print (compact form,
+   the escapes orjson emits, raw UTF-8) and json_parse (whitespace, all escapes incl. surrogate pairs, strict UTF-8,
+   integer syntax, repeated keys as orjson resolves them).  The correspondence check compares both with the real
+   library on every run (C19Corr.CJsonModel: the text rxsci json.dump emitted for each generated value = json_print;
+   json_parse = orjson.loads on noisy and mutated texts, rejections included).  The orjson premises of the
+   theorems above are THEOREMS for this model, so that only the text codec (C17) and the compression stage (C16)
+   remain as premises.  Outside the model: floats, ints beyond orjson's range (loads turns them into floats), orjson's
+   nesting limits (254 on dumps, 1024 on loads).
+   --------------------------------------------------------------------------------------------- *)
+Theorem C19_json_model_parse_print : forall v, jv_wf v -> json_parse (json_print v) = Some v.
+Proof. exact json_parse_print. Qed.
+Print Assumptions C19_json_model_parse_print.
+Theorem C19_json_model_parse_print_then_whitespace : forall v ws, jv_wf v -> all_ws ws ->
+  json_parse (json_print v ++ ws) = Some v.
+Proof. exact json_parse_print_ws. Qed.
+Print Assumptions C19_json_model_parse_print_then_whitespace.
+Theorem C19_json_model_no_control_byte : forall v, Forall (fun b => (32 <= b)%Z) (json_print v).
+Proof. exact json_print_no_control. Qed.
+Print Assumptions C19_json_model_no_control_byte.
+Theorem C19_json_model_no_raw_newline : forall v, ~ In 10%Z (json_print v).
+Proof. exact json_print_no_newline. Qed.
+Print Assumptions C19_json_model_no_raw_newline.
+Theorem C19_json_model_nonempty : forall v, json_print v <> [].
+Proof. exact json_print_nonempty. Qed.
+Print Assumptions C19_json_model_nonempty.
+Theorem C19_json_model_is_utf8 : forall v, jv_wf v -> utf8_decode (json_print v) = Some (json_text v).
+Proof. exact json_print_utf8. Qed.
+Print Assumptions C19_json_model_is_utf8.
+(* the three composition theorems with the orjson premises discharged (Obj = well-formed values, Ch = code points) *)
+Theorem C19_model_load_any_rechunking_of_dump :
+  forall (Byte : Type)
+         (encode : list (list Z) -> list (list Byte)) (decode : list (list Byte) -> option (list (list Z)))
+         (compress : list (list Byte) -> list (list Byte))
+         (decompress : list (list Byte) -> option (list (list Byte))),
+  (* H_text_codec *) (forall cs r, concat r = concat (encode cs) ->
+                      exists cs', decode r = Some cs' /\ concat cs' = concat cs) ->
+  (* H_compression *) (forall bs r, concat r = concat (compress bs) ->
+                       exists bs', decompress r = Some bs' /\ concat bs' = concat bs) ->
+  forall (objs : list wfjv) (r : list (list Byte)) (skip : nat) (ign : bool),
+  concat r = dump_to_file wfjv Z Byte 10%Z wf_dumps encode compress objs ->
+  load_chunks wfjv Z Byte z_is_nl wf_loads wf_is_null decode decompress skip ign r =
+  (filter (fun o => negb (wf_is_null o)) (skipn skip objs), true).
+Proof. exact JsonC19.C19_model_load_any_rechunking_of_dump. Qed.
+Print Assumptions C19_model_load_any_rechunking_of_dump.
+Theorem C19_model_load_from_file_dump_to_file :
+  forall (Byte : Type)
+         (encode : list (list Z) -> list (list Byte)) (decode : list (list Byte) -> option (list (list Z)))
+         (compress : list (list Byte) -> list (list Byte))
+         (decompress : list (list Byte) -> option (list (list Byte))),
+  (forall cs r, concat r = concat (encode cs) -> exists cs', decode r = Some cs' /\ concat cs' = concat cs) ->
+  (forall bs r, concat r = concat (compress bs) -> exists bs', decompress r = Some bs' /\ concat bs' = concat bs) ->
+  forall (objs : list wfjv) (size : nat) (ign : bool),
+  (forall o, In o objs -> wf_is_null o = false) ->
+  load_from_file wfjv Z Byte z_is_nl wf_loads wf_is_null decode decompress size 0 ign
+    (dump_to_file wfjv Z Byte 10%Z wf_dumps encode compress objs) = (objs, true).
+Proof. exact JsonC19.C19_model_load_from_file_dump_to_file. Qed.
+Print Assumptions C19_model_load_from_file_dump_to_file.
+Theorem C19_model_load_doc_from_file_dump_one :
+  forall (Byte : Type)
+         (encode : list (list Z) -> list (list Byte)) (decode : list (list Byte) -> option (list (list Z)))
+         (compress : list (list Byte) -> list (list Byte))
+         (decompress : list (list Byte) -> option (list (list Byte))),
+  (forall cs r, drop_empty r = drop_empty [concat (encode cs)] ->
+   exists cs', decode r = Some cs' /\ drop_empty cs' = drop_empty [concat cs]) ->
+  (forall bs r, drop_empty r = drop_empty [concat (compress bs)] ->
+   exists bs', decompress r = Some bs' /\ drop_empty bs' = drop_empty [concat bs]) ->
+  forall (o : wfjv) (ign : bool), wf_is_null o = false ->
+  load_doc_from_file wfjv Z Byte wf_loads wf_is_null decode decompress 0 ign
+    (dump_to_file wfjv Z Byte 10%Z wf_dumps encode compress [o]) = ([o], true).
+Proof. exact JsonC19.C19_model_load_doc_from_file_dump_one. Qed.
+Print Assumptions C19_model_load_doc_from_file_dump_one.
+Example C19_json_model_example :
+  json_print (JObj [([97]%Z, JArr [JInt 1%Z; JNull; JStr [233; 10; 34]%Z])])
+  = [123; 34; 97; 34; 58; 91; 49; 44; 110; 117; 108; 108; 44; 34; 195; 169; 92; 110; 92; 34; 34; 93; 125]%Z.
+Proof. vm_compute. reflexivity. Qed.
 
 (* non-vacuity *)
 Example C19_load_example :
